@@ -165,6 +165,7 @@ impl Monitor for Mon {
 pub fn prop() -> HistProp {
     let mut w = Weights::trading();
     w.squeeze = 3;
+    w.rewire = 1;
     HistProp {
         id: "C08",
         level: "fault_enumeration",
